@@ -237,6 +237,29 @@ def fam_inherit(nmax: int = 3, *, batch: int = 2, faults: bool = False) -> Itera
                         yield Config(spec=spec, requested=req, batch=batch, faults=(f,))
 
 
+def fam_mlflow(nmax: int = 3, *, batch: int = 2) -> Iterator[Config]:
+    """Task types declared with mlflow_run=True (TW), in-process runners only: fault-free; one TW task
+    ending in SystemExit (every later TW task still gets its own run); and mlflow not installed at all,
+    where every TW task that has to execute fails with labtech's own error and everything else carries on."""
+    for n in range(1, nmax + 1):
+        for shape in all_shapes(n):
+            for types in itertools.product(('TW', 'TA'), repeat=n):
+                if 'TW' not in types:
+                    continue
+                spec = mk_spec(shape, types=types)
+                req = tuple((i, False) for i in range(n))
+                tw = tuple(i for i in range(n) if types[i] == 'TW')
+                yield Config(spec=spec, requested=req, batch=batch)
+                for cof in (True, False):
+                    yield Config(spec=spec, requested=req, batch=batch, faults=tw, fault_exc='mlflow-absent', cof=cof)
+                    if n > 1:
+                        yield Config(spec=spec, requested=((n - 1, False),), batch=batch, faults=tw, fault_exc='mlflow-absent', cof=cof)
+                    for f in tw:
+                        yield Config(spec=spec, requested=req, batch=batch, faults=(f,), fault_exc='exit', cof=cof)
+                if n > 1 and any(shape):
+                    yield Config(spec=spec, requested=req, batch=batch, precached=(0,), faults=tuple(i for i in tw if i != 0), fault_exc='mlflow-absent')
+
+
 def fam_corrupt(nmin: int = 2, nmax: int = 3, *, batch: int = 2) -> Iterator[Config]:
     """Warm caches in which the stored result of one entry is damaged (metadata intact): the entry looks
     cached, cannot be loaded - the task fails; it is not re-run behind the caller's back."""
